@@ -118,4 +118,14 @@ def exportFile (hash : Bytes) (cert key csr : Option Bytes) : Bytes :=
   (match key with | some k => encode tPrivateKey k | none => []) ++
   (match csr with | some r => encode tRequest r | none => [])
 
+/-- how `importCertConfigFile` reads the stored configuration hash: the first `#HASH:` anywhere in the file, up to the
+    next line feed, base64-decoded; `none` = no marker, no line feed after it, or not base64 -/
+def readHash (file : Bytes) : Option Bytes :=
+  match indexOf hashPrefix file with
+  | none => none
+  | some i =>
+    match splitNl (file.drop i) with
+    | (_, none) => none
+    | (line, some _) => V1.goB64Decode (line.drop hashPrefix.length)
+
 end Pem
